@@ -19,7 +19,7 @@
  * \param ld   elements per line
  * \param data target address
  * 
- * \return zero on success
+ * \return zero on success, negative position (first = 1) of first missing value
  */
 extern int mpt_values_file(FILE *fd, long len, long ld, double *data)
 {
@@ -32,11 +32,11 @@ extern int mpt_values_file(FILE *fd, long len, long ld, double *data)
 		for (i = 0; i < len; i++) {
 			for (j = 0; j < ld; j++) {
 				if (fscanf(fd, "%lf", data ? &data[len*j] : &val) != 1) {
-					return -(j+i*ld);
+					return -(1+j+i*ld);
 				}
 			}
 			if ((fscanf(fd, "%*[^\n]") < 0) && (i+1 < len)) {
-				return -((i+1)*ld);
+				return -(1+(i+1)*ld);
 			}
 			if (data) ++data;
 		}
@@ -46,11 +46,11 @@ extern int mpt_values_file(FILE *fd, long len, long ld, double *data)
 		for (i = 0; i < len; i++) {
 			for (j = 0; j < ld; j++) {
 				if (fscanf(fd, "%lf", data ? &data[j] : &val) != 1) {
-					return -(j+i*ld);
+					return -(1+j+i*ld);
 				}
 			}
 			if ((fscanf(fd, "%*[^\n]") < 0) && (i+1 < len)) {
-				return -((i+1)*ld);
+				return -(1+(i+1)*ld);
 			}
 			if (data) data += ld;
 		}
